@@ -2,6 +2,7 @@ package main
 
 import (
 	"fmt"
+	"regexp"
 	"strings"
 
 	zed "github.com/brimdata/super"
@@ -18,6 +19,8 @@ type lakeCase struct {
 	KeyPath string
 	Desc    bool
 	Unique  bool
+	Ranged  bool // loads cover consecutive, partly overlapping key ranges
+	MaxKey  int  // largest key value (for filter literals)
 	KeyOnly bool // values are {<key>:K} only (duplicates allowed): equal keys = equal values
 	Mixed   bool
 	Stride  int
@@ -75,6 +78,44 @@ func splitLoads(r *Rng, vals []string, n int) [][]string {
 	return loads
 }
 
+// rangedLoads splits vals (ordered by key) into n loads of consecutive,
+// partly overlapping key ranges: every object covers its own part of the key
+// space, so a range pruner has objects and seek ranges to skip.
+func rangedLoads(r *Rng, sortedVals []string, n int) [][]string {
+	loads := make([][]string, n)
+	w := (len(sortedVals) + n - 1) / n
+	if w == 0 {
+		w = 1
+	}
+	for i, v := range sortedVals {
+		j := i / w
+		if j >= n {
+			j = n - 1
+		}
+		// a few values spill into the neighbouring load
+		if r.Chance(1, 6) && j+1 < n {
+			j++
+		} else if r.Chance(1, 6) && j > 0 {
+			j--
+		}
+		loads[j] = append(loads[j], v)
+	}
+	Shuffle(r, loads)
+	return loads
+}
+
+func sortedByKey(vals []string, keyPath string, desc bool) []string {
+	o := order.Asc
+	if desc {
+		o = order.Desc
+	}
+	s, err := sortInput(strings.Join(vals, "\n"), field.Dotted(keyPath), o)
+	if err != nil {
+		return vals
+	}
+	return strings.Split(strings.TrimSpace(s), "\n")
+}
+
 func genLakeCase(r *Rng) *lakeCase {
 	lc := &lakeCase{KeyPath: "k", Desc: r.Bool(), Unique: r.Chance(2, 3)}
 	if r.Chance(1, 6) {
@@ -85,7 +126,17 @@ func genLakeCase(r *Rng) *lakeCase {
 	cfg := inputCfg{N: 6 + r.Intn(26), KeyPath: lc.KeyPath, Unique: lc.Unique, KeysMixed: !lc.Unique && r.Chance(2, 3)}
 	cfg.Shapes = lc.Unique && r.Chance(1, 3)
 	lc.Mixed = cfg.KeysMixed
-	lc.Loads = splitLoads(r, genInput(r, cfg), 1+r.Intn(5))
+	if r.Chance(1, 2) {
+		lc.Ranged = true
+		lc.Stride = Pick(r, []int{1, 1, 2, 64})
+		lc.Loads = rangedLoads(r, sortedByKey(genInput(r, cfg), lc.KeyPath, false), 2+r.Intn(4))
+	} else {
+		lc.Loads = splitLoads(r, genInput(r, cfg), 1+r.Intn(5))
+	}
+	lc.MaxKey = 3 * cfg.N
+	if !lc.Unique {
+		lc.MaxKey = cfg.N / 2
+	}
 	if r.Chance(1, 3) {
 		lc.QDesc = r.Bool()
 		qcfg := inputCfg{N: 3 + r.Intn(14), KeyPath: lc.KeyPath, KeysMixed: r.Chance(1, 3)}
@@ -95,7 +146,7 @@ func genLakeCase(r *Rng) *lakeCase {
 }
 
 func (lc *lakeCase) program(r *Rng) string {
-	g := &progGen{r: r, key: lc.KeyPath, noOrderSensitiveAggs: true}
+	g := &progGen{r: r, key: lc.KeyPath, noOrderSensitiveAggs: true, mixedKeys: lc.Mixed}
 	if lc.QLoads != nil && r.Chance(2, 3) {
 		k := lc.KeyPath
 		style := Pick(r, []string{"", "inner ", "left ", "right ", "anti "})
@@ -119,6 +170,17 @@ func (lc *lakeCase) program(r *Rng) string {
 			tail = " | " + g.simpleOp()
 		}
 		return fmt.Sprintf("from p%s | %sjoin (from q%s) on %s=%s%s%s", left, style, right, k, rk, args, tail)
+	}
+	if r.Chance(1, 3) {
+		// a filter the range pruner has to analyse, alone or in front of something
+		p := "from p | where " + g.keyFilter(1+r.Intn(3), lc.MaxKey)
+		switch r.Intn(4) {
+		case 0:
+			p += " | " + g.simpleOp()
+		case 1:
+			p += " | where " + g.keyFilter(1, lc.MaxKey)
+		}
+		return p
 	}
 	if lc.Unique && r.Chance(1, 3) {
 		return "from p | " + g.positionalIdiom()
@@ -168,7 +230,42 @@ func checkLake(env *LakeEnv, lc *lakeCase, prog string, par int) (d *diff, a, b 
 	if b.Err != nil {
 		return &diff{"opt-" + errClass(b.Err) + "-" + b.Stage, "plan as analysed succeeds: " + joinShort(a.Out), b.Err.Error()}, a, b, st
 	}
-	return refine(compareOutputs(st, a.Out, b.Out), a.Out, b.Out), a, b, st
+	d = refine(compareOutputs(st, a.Out, b.Out), a.Out, b.Out)
+	if d != nil && d.Kind == "bag-differs" && onlyTypedNullKeyRowsLost(a.Out, b.Out, lc.KeyPath) {
+		d.Kind = "typed-null-key-rows-dropped"
+	}
+	return d, a, b, st
+}
+
+// onlyTypedNullKeyRowsLost: the optimized output is the reference output minus
+// rows whose pool key is a typed null (null(int64), ...).
+func onlyTypedNullKeyRowsLost(a, b []string, keyPath string) bool {
+	leaf := keyPath
+	if i := strings.LastIndex(keyPath, "."); i >= 0 {
+		leaf = keyPath[i+1:]
+	}
+	re := regexp.MustCompile(`[{,]` + regexp.QuoteMeta(leaf) + `:null\(`)
+	cnt := map[string]int{}
+	for _, x := range b {
+		cnt[x]++
+	}
+	lost := 0
+	for _, x := range a {
+		if cnt[x] > 0 {
+			cnt[x]--
+			continue
+		}
+		if !re.MatchString(x) {
+			return false
+		}
+		lost++
+	}
+	for _, n := range cnt {
+		if n > 0 {
+			return false
+		}
+	}
+	return lost > 0
 }
 
 // mergeKeyCheck is the deterministic form of "the parallel plan reproduces the
@@ -363,6 +460,7 @@ func (c *c07) lakeSeededUnit(r *Rng) {
 			c.lakeCase(env, sh, prog, 1)
 			c.lakeCase(env, sh, prog, 2)
 		}
+		c.lakeSeededFilters(r, desc)
 		ko := &lakeCase{KeyPath: "k", Desc: desc, Unique: true, KeyOnly: true, Stride: 1, Thresh: 0}
 		var vals []string
 		for i := 0; i < 36; i++ {
@@ -378,6 +476,57 @@ func (c *c07) lakeSeededUnit(r *Rng) {
 		for _, prog := range lakeSeededKeyOnly {
 			c.lakeCase(env, ko, prog, 1)
 			c.lakeCase(env, ko, prog, 2)
+		}
+	}
+}
+
+// Filters over pools whose objects cover different, partly overlapping key
+// ranges with a small seek stride: fixed shapes for every comparison operator
+// and connective, plus generated combinations (depth <= 3).
+var lakeSeededFilterShapes = []string{
+	"k < %[1]d", "k <= %[1]d", "k > %[2]d", "k >= %[2]d", "k == %[1]d", "k != %[1]d", "%[1]d > k", "%[2]d <= k",
+	"k < %[1]d or c == 5", "c == 5 or k < %[1]d", "k > %[2]d or has(s)", "k == %[1]d or a == 2", "k >= %[2]d or k < c",
+	"k < %[1]d and c > 5", "c > 5 and k >= %[2]d", "k < %[1]d or k > %[2]d", "k > %[1]d and k <= %[2]d",
+	"(k < %[1]d or c == 5) and k < %[2]d", "(k < %[1]d and c > 3) or k > %[2]d", "(k < %[1]d and c > 3) or (k > %[2]d and a == 1)",
+	"(k < %[1]d or a == 1) or k > %[2]d", "not (k < %[1]d)", "not (k < %[1]d or c == 5)", "not (k >= %[1]d and c != 5)",
+	"(k == %[1]d or k == %[2]d) or id %% 5 == 0", "k < %[1]d or (k > %[2]d and c > 10)", "k + 0 < %[1]d or k > %[2]d",
+	"k <= %[1]d or missing(a)", "k < %[1]d or not (k < %[2]d)",
+}
+
+func (c *c07) lakeSeededFilters(r *Rng, desc bool) {
+	for _, mixed := range []bool{false, true} {
+		lc := &lakeCase{KeyPath: "k", Desc: desc, Unique: !mixed, Mixed: mixed, Ranged: true, Stride: 1, Thresh: 0}
+		n := 36
+		vals := genInput(r, inputCfg{N: n, KeyPath: "k", Unique: !mixed, KeysMixed: mixed})
+		lc.MaxKey = 3 * n
+		if mixed {
+			lc.MaxKey = n / 2
+		}
+		lc.Loads = rangedLoads(r, sortedByKey(vals, "k", false), 4)
+		c.mark(map[string]any{"oracle": "lake", "phase": "build", "pool": lc})
+		env, err := lc.build()
+		if err != nil {
+			c.res.Count("lake:build-error")
+			return
+		}
+		lo, hi := lc.MaxKey/4, lc.MaxKey*2/3
+		var progs []string
+		for _, sh := range lakeSeededFilterShapes {
+			if mixed && (strings.Contains(sh, "k + 0") || strings.Contains(sh, "k < c")) {
+				continue
+			}
+			progs = append(progs, "from p | where "+fmt.Sprintf(sh, lo, hi))
+		}
+		g := &progGen{r: r, key: "k", noOrderSensitiveAggs: true, mixedKeys: mixed}
+		for i := 0; i < 14; i++ {
+			progs = append(progs, "from p | where "+g.keyFilter(2+i%2, lc.MaxKey))
+		}
+		progs = append(progs, fmt.Sprintf("from p | where k < %d or c == 5 | count()", lo), fmt.Sprintf("from p | where c == 5 or k > %d | sort c,id | head 3", hi))
+		for i, prog := range progs {
+			c.lakeCase(env, lc, prog, 1)
+			if i%3 == 0 {
+				c.lakeCase(env, lc, prog, 2)
+			}
 		}
 	}
 }
